@@ -8,7 +8,7 @@
 (* a Subject), observers O, harness threads P.  Each action is one event   *)
 (* the harness can see; its enabling condition IS the property.            *)
 (*                                                                         *)
-(*   CallB(p,k,v) / CallE(p)   thread p invokes / returns from Next|Error|  *)
+(*   CallB(p,k,v,i) / CallE(p) thread p invokes (its i-th call) / returns from  *)
 (*                             Complete on the producer side               *)
 (*   CbB(o,p,k,v) / CbE(o)     a callback of observer o begins / ends; p is *)
 (*                             the producer call it belongs to             *)
@@ -51,7 +51,7 @@ VARIABLES kind,     \* "obs" | "subj"   what the object is
 
 cvars == <<kind, safe, call, inside, termB, termE, unsB, unsE, tdRan, tdOf, tdSt, tdLate, unsAct, disposed, objTerm, waiting, quiet, gsnap>>
 
-NoCall == [act |-> FALSE, k |-> "N", v |-> 0, doomed |-> FALSE, cut |-> FALSE, late |-> {}, ncb |-> 0, ndrop |-> 0]
+NoCall == [act |-> FALSE, k |-> "N", v |-> 0, i |-> -1, doomed |-> FALSE, cut |-> FALSE, late |-> {}, ncb |-> 0, ndrop |-> 0]
 
 CInit(kd, sf) ==
   /\ kind = kd /\ safe = sf
@@ -71,15 +71,15 @@ CInit(kd, sf) ==
 OtherDisposer(p, q) == \E r \in P \ {p, q} : call[r].act /\ call[r].k \in {"E", "C"}
 
 \* callback (k,v) belongs to the call thread p has in flight (p = -1: no producer identity, e.g. a replayed value)
-Match(p, k, v) == p \in P /\ call[p].act /\ call[p].k = k /\ call[p].v = v
+Match(p, k, v, i) == p \in P /\ call[p].act /\ call[p].k = k /\ call[p].v = v /\ call[p].i = i
 
 Closing(o) == termE[o] \/ unsB[o]        \* the subscription of o may legitimately be disposing
 ClosedFor(o) == termB[o] \/ unsE[o]
 
 (* ---- producer side ---------------------------------------------------- *)
-CallB(p, k, v) ==
+CallB(p, k, v, i) ==
   /\ ~call[p].act
-  /\ call' = [call EXCEPT ![p] = [act |-> TRUE, k |-> k, v |-> v,
+  /\ call' = [call EXCEPT ![p] = [act |-> TRUE, k |-> k, v |-> v, i |-> i,
                  \* doomed: the object had already terminated (a terminal was accepted and its call returned is not needed:
                  \* the status word is set before delivery) or - for a plain observable - its only subscription was unsubscribed
                  doomed |-> objTerm,
@@ -109,19 +109,19 @@ Drop(p) ==
   /\ UNCHANGED <<kind, safe, inside, termB, termE, unsB, unsE, tdRan, tdOf, tdSt, tdLate, unsAct, disposed, objTerm, waiting, quiet, gsnap>>
 
 (* ---- observer side ---------------------------------------------------- *)
-CbB(o, p, k, v) ==
+CbB(o, p, k, v, i) ==
   \* C02: callbacks of one observer never overlap
   /\ On("C02") => (safe => inside[o] = 0)
   \* C01: values, then at most one terminal, then silence
   /\ On("C01") => ~termB[o]
   \* the callback belongs to a call that is in flight and carries this notification, delivered once
-  /\ On("C01") => ((kind = "obs") => (Match(p, k, v) /\ call[p].ncb = 0 /\ ~call[p].doomed))
+  /\ On("C01") => ((kind = "obs") => (Match(p, k, v, i) /\ call[p].ncb = 0 /\ ~call[p].doomed))
   \* C06: nothing whose emission began after Unsubscribe(o) returned is delivered
-  /\ On("C06") => (Match(p, k, v) => (o \notin call[p].late /\ ~call[p].cut))
+  /\ On("C06") => (Match(p, k, v, i) => (o \notin call[p].late /\ ~call[p].cut))
   /\ inside' = [inside EXCEPT ![o] = @ + 1]
   /\ termB' = [termB EXCEPT ![o] = @ \/ k \in {"E", "C"}]
-  /\ objTerm' = (objTerm \/ (k \in {"E", "C"} /\ Match(p, k, v)))
-  /\ call' = IF Match(p, k, v) THEN [call EXCEPT ![p].ncb = @ + 1] ELSE call
+  /\ objTerm' = (objTerm \/ (k \in {"E", "C"} /\ Match(p, k, v, i)))
+  /\ call' = IF Match(p, k, v, i) THEN [call EXCEPT ![p].ncb = @ + 1] ELSE call
   /\ UNCHANGED <<kind, safe, termE, unsB, unsE, tdRan, tdOf, tdSt, tdLate, unsAct, disposed, waiting, quiet, gsnap>>
 
 CbE(o, k) ==
